@@ -153,3 +153,20 @@ func sanitize(s string) string {
 }
 
 var startTime = time.Now()
+
+// replayDir / evidenceDir: /verif/replays and /verif/evidence, unless redirected
+// (the seeded-change experiments run the checks against patched scratch copies
+// and must not overwrite the evidence of the real tree).
+func replayDir() string {
+	if d := os.Getenv("VERIF_REPLAY_DIR"); d != "" {
+		return d
+	}
+	return filepath.Join(verifDir, "replays")
+}
+
+func evidenceDir() string {
+	if d := os.Getenv("VERIF_EVIDENCE_DIR"); d != "" {
+		return d
+	}
+	return filepath.Join(verifDir, "evidence")
+}
